@@ -20,4 +20,6 @@ HOOK_COMMITS = [
     "d6f85c4 verif hooks: src/verif.rs registry, history lock points, clock override, process_once wrapper, run outcome injection, notify point, HTTP dispatcher exposure",
     "68fa744 verif hooks: clock override in SharedHistory::update, thread exemption and wait_any",
     "verif hook: SharedHistory::verif_replace_current",
+    "verif hooks: count validation runs; sticky forced outcomes",
+    "verif hooks: RTR listener/stream exposure, rendezvous points in RtrStream::new and metrics",
 ]
